@@ -102,6 +102,13 @@ pub struct PreState {
     /// nothing on stdout cannot depend on it.
     #[serde(default)]
     pub stdout: u8,
+    /// another process works in the same place at the same time: 0 = nobody; k+1 = a neighbour
+    /// creates the very directory the tool is about to create, immediately before the tool's
+    /// k-th mkdir call goes through (the tool's call then meets EEXIST, as in a real race
+    /// between two invocations sharing an output directory). Not a failure of anything: a
+    /// correct tool still succeeds.
+    #[serde(default)]
+    pub neighbour: u8,
 }
 
 #[derive(Clone, Debug, PartialEq, Eq, Serialize, Deserialize)]
@@ -448,6 +455,7 @@ impl Engine for CliSim {
             non_utf8: r.chance(1, 10),
             unprivileged: r.chance(1, 4),
             stdout: if r.chance(1, 5) { r.range(1, 3) as u8 } else { 0 },
+            neighbour: if r.chance(1, 5) { r.range(1, 4) as u8 } else { 0 },
             clock: if r.chance(1, 4) {
                 *r.pick(&[
                     1835438400i64, // 2028-02-29 12:00:00 (leap day)
@@ -601,6 +609,7 @@ impl Engine for CliSim {
             || t.pre.clock != 0
             || t.pre.unprivileged
             || t.pre.stdout != 0
+            || t.pre.neighbour != 0
         {
             let mut c = t.clone();
             c.pre = PreState {
@@ -618,6 +627,7 @@ impl Engine for CliSim {
                 clock: 0,
                 unprivileged: false,
                 stdout: 0,
+                neighbour: 0,
             };
             v.push(c);
             let mut c = t.clone();
@@ -845,8 +855,15 @@ fn scenario(t: &CliTrace, fault: Option<&(usize, Fault)>, o: &mut Outcome, label
             if t.pre.clock != 0 {
                 cmd.env("DETSYS_CLOCK_ABS", t.pre.clock.to_string());
             }
+            let mut plan: Vec<String> = Vec::new();
             if let Some(Fault::Sys { kind, k, errno }) = &my_fault {
-                cmd.env("DETSYS_PLAN", format!("{kind}:{k}:{errno}"));
+                plan.push(format!("{kind}:{k}:{errno}"));
+            }
+            if t.pre.neighbour != 0 {
+                plan.push(format!("mkdir:{}:raced", t.pre.neighbour - 1));
+            }
+            if !plan.is_empty() {
+                cmd.env("DETSYS_PLAN", plan.join(","));
             }
         }
         // watchdog: a tool that never returns is ended after the limit (it only ever matters for
@@ -901,6 +918,9 @@ fn scenario(t: &CliTrace, fault: Option<&(usize, Fault)>, o: &mut Outcome, label
             if let Some(c) = rep["counts"].as_object() {
                 res.last_counts = c.iter().map(|(k, v)| (k.clone(), v.as_u64().unwrap_or(0))).collect();
             }
+        }
+        if rep["raced"].as_u64().unwrap_or(0) > 0 {
+            o.count("neighbour_won_mkdir_race", 1);
         }
         if let Some(f) = &my_fault {
             if fired {
